@@ -35,6 +35,16 @@ def handle (_fam : String) (c _impl : Json) : P Json := do
     | "drop" =>
       let o ← look (← natF ev "o")
       st := (st.step (.drop o)).1
+    | "fresh" =>
+      -- the object was just returned by an operation that must produce unshared storage
+      -- (fresh vector, copy, slice, operation result, table column)
+      let oh ← natF ev "o"
+      let o ← look oh
+      let s := (st.store o).getD 0
+      let sh := sharersOf st o s
+      if s != 0 && !sh.isEmpty then
+        let desc := (fieldD ev "desc" Json.null).compress
+        return verdict false s!"event {k} {desc}: new object {oh} shares its storage with live objects {sh} although it is a fresh vector / copy / slice / result / table column" (toJson k)
     | "write" =>
       let oh ← natF ev "o"
       let o ← look oh
